@@ -584,7 +584,7 @@ func runUnfoldComplete(p *Program, r *RuleResult) {
 				r.add(fnName(fn), construct, Holds, p.instrPos(ret), why)
 			} else {
 				r.add(fnName(fn), construct, Violated, p.instrPos(ret),
-					"the unfolding function can return "+describeVal(v)+", which may still be a type name (a definition can be an alias `type A = B`): callers that take the polarity of the result, or assert its constructor, then hit the 'unfold type before checking for polarity' panic or reject well-typed programs")
+					"the unfolding function can return "+displayKey(v)+", which may still be a type name (a definition can be an alias `type A = B`): callers that take the polarity of the result, or assert its constructor, then hit the 'unfold type before checking for polarity' panic or reject well-typed programs")
 			}
 		}
 	}
